@@ -164,6 +164,7 @@ func prepare() *build {
 		"go_bin":     gobin,
 		"extra_files": map[string]string{
 			filepath.Join(repoDir, "v2/pkg/engine/resolve/zz_simaccess.go"): filepath.Join(verifDir, "overlay/resolve_simaccess.go"),
+			filepath.Join(repoDir, "execution/engine/zz_simaccess.go"):      filepath.Join(verifDir, "overlay/engine_simaccess.go"),
 		},
 		"plain_fields": plainFields,
 	}
